@@ -1,6 +1,6 @@
 #!/venv/bin/python
 """usage: tools/diff_triage.py <C01|C02|C03> <n_batches> [seed]  — find CPython/pyscript diffs, shrink by statement removal, group."""
-import sys, re, collections, importlib, asyncio, random
+import os, sys, re, collections, importlib, asyncio, random
 sys.path.insert(0, '/verif')
 from vf import repo_first; repo_first()
 from vf.warm import warm; warm()
@@ -9,29 +9,55 @@ pid=sys.argv[1]; nb=int(sys.argv[2]); seed=sys.argv[3] if len(sys.argv)>3 else '
 mod=importlib.import_module(f'vf.checks.{pid.lower()}')
 fam = getattr(mod, 'FAMILIES', False)
 async def differs(src):
-    py=interp.run_cpython(src)
+    py=interp.run_cpython(src, extra={'pyscript_compile': (lambda f: f)})
     if 'compile_error' in py: return None
     ps=await interp.run_pyscript(src)
     d=interp.compare(py,ps,families=fam)
     return d[0] if d else None
+import ast, copy
+def _bodies(tree):
+    for node in ast.walk(tree):
+        for fld in ('body','orelse','finalbody','handlers'):
+            b=getattr(node,fld,None)
+            if isinstance(b,list) and b and isinstance(b[0],(ast.stmt,ast.excepthandler)):
+                yield node,fld
 async def shrink(src, kind):
-    lines=src.rstrip('\n').split('\n')
-    changed=True
-    while changed and len(lines)>1:
-        changed=False
-        for i in range(len(lines)):
-            if '+= 1' in lines[i] or lines[i].strip().startswith(('def ','while ','for ')): continue
-            cand=lines[:i]+lines[i+1:]
-            d=await differs('\n'.join(cand)+'\n')
+    cur=src
+    for _round in range(40):
+        tree=ast.parse(cur)
+        spots=[(n,f,i) for n,f in _bodies(tree) for i in range(len(getattr(n,f)))]
+        done=True
+        for idx in range(len(spots)):
+            t2=ast.parse(cur)
+            sp=[(n,f,i) for n,f in _bodies(t2) for i in range(len(getattr(n,f)))]
+            n,f,i=sp[idx]
+            st=getattr(n,f)[i]
+            if isinstance(st,(ast.While,)) : continue
+            if isinstance(st,ast.AugAssign) and isinstance(st.target,ast.Name) and st.target.id.startswith('c') and st.target.id[1:].isdigit(): continue
+            lst=getattr(n,f); del lst[i]
+            if not lst and f=='body': lst.append(ast.Pass())
+            try: cand=ast.unparse(ast.fix_missing_locations(t2))+"\n"
+            except Exception: continue
+            d=await differs(cand)
             if d and d[0]==kind:
-                lines=cand; changed=True; break
-    return '\n'.join(lines)+'\n'
+                cur=cand; done=False; break
+        if done: break
+    return cur
 def norm(s):
     s=re.sub(r'T\(\d+, ','T(#, ',s); s=re.sub(r'\b[vcn]\d+\b','v',s); s=re.sub(r'\b\d+(\.\d+)?\b','N',s); s=re.sub(r"'[^']*'","S",s)
     return s
 groups=collections.defaultdict(list)
 async def main(w):
-    gen=mod.generate('quick', int(seed)) if True else None
+    if '--replays' in sys.argv:
+        import glob, json
+        for pth in sorted(glob.glob(f'/verif/replays/{pid}/*.json')):
+            src=json.load(open(pth))['case']['programs'][0]
+            d=await differs(src)
+            if d:
+                small=await shrink(src,d[0]); d2=await differs(small)
+                groups[(d2[0], norm(d2[1])[:90])].append((small,d2[1]))
+        return
+    gen=mod.generate('quick', int(seed), gated=set(os.environ.get('GATED','').split(','))) if os.environ.get('GATED') else mod.generate('quick', int(seed))
     cnt=0; tot=0
     for case in gen:
         if case.get('stream')=='table' and pid=='C01' and '--table' not in sys.argv: continue
@@ -43,10 +69,10 @@ async def main(w):
             if d:
                 small=await shrink(src,d[0])
                 d2=await differs(small)
-                groups[(d2[0], norm(small))].append((small,d2[1]))
+                groups[(d2[0], norm(d2[1])[:90] if '--bymsg' in sys.argv else norm(small))].append((small,d2[1]))
     print("programs",tot,"diff groups",len(groups))
 interp.run_batch_in_world(main)
 lim=int(__import__('os').environ.get('TOP','40'))
-for (k,n),lst in sorted(groups.items(), key=lambda kv:(len(kv[0][1]), -len(kv[1])))[:lim]:
+for (k,n),lst in sorted(groups.items(), key=lambda kv:((-len(kv[1])) if '--bymsg' in sys.argv else len(kv[0][1]), -len(kv[1])))[:lim]:
     print(f"--- {len(lst)}x {k}: {lst[0][1][:200]}")
     print(lst[0][0].rstrip())
